@@ -1,3 +1,7 @@
 pub mod c12;
 pub mod c13;
 pub mod c20;
+pub mod c18;
+pub mod curves;
+pub mod c16;
+pub mod c19;
